@@ -2,6 +2,7 @@
 #include "common.h"
 #include "profiles.h"
 #include "clock.h"
+#include "tz.h"
 #include <unistd.h>
 #include <fcntl.h>
 #include <signal.h>
@@ -175,6 +176,7 @@ int main(int argc, char** argv) {
   if (cmd == "replay" && argc >= 3) {
     Trace tr;
     if (!readTraceFile(argv[2], tr)) { fprintf(stderr, "cannot read trace\n"); return 2; }
+    if (tr.profile == "tz-history") pristineInit();
     Verdict v; Coverage cov; bool nt = false;
     if (!execute(tr, v, cov, nt, nullptr)) { fprintf(stderr, "unknown profile %s\n", tr.profile.c_str()); return 2; }
     printVerdict(v);
@@ -199,6 +201,8 @@ int main(int argc, char** argv) {
         for (size_t p = 0; p < l.size();) { size_t q = l.find(',', p); if (q == std::string::npos) q = l.size(); crashNoteOps.insert(l.substr(p, q - p)); p = q + 1; }
       } else if (strcmp(argv[a], "--bitmap") == 0 && a + 1 < argc) { bm = &bitmap; bitmap.path = argv[++a]; }
     }
+    const bool useDelegate = strcmp(profile, "tz-history") == 0;
+    if (useDelegate) { g_pristineEvery = 96; delegateInit(); }
     installCrashRecovery();
     g_ubCollect = true;
     Coverage cov;
@@ -213,6 +217,8 @@ int main(int argc, char** argv) {
       if (!generate(profile, seed, tr)) { fprintf(stderr, "unknown profile\n"); return 2; }
       Verdict v; bool nt = false;
       g_curOp = -1; g_curRun = i; g_curSeed = seed;
+      // every n-th run is ALSO executed by the delegate, in a process with no history (exactly what `replay` does)
+      const bool delegated = useDelegate && (i % g_pristineEvery == 0) && delegateRequest(tr);
       if (sigsetjmp(g_jmp, 1) == 0) {
         g_armed = 1;
         alarm(kRunWatchdogSeconds);
@@ -232,6 +238,13 @@ int main(int argc, char** argv) {
           else
             v.fail(std::string("crash:") + sigName(g_sig), std::string("process received ") + sigName(g_sig)
                 + " while executing: " + ((op >= 0 && op < (int)tr.lines.size()) ? tr.lines[op] : "?"), op);
+        }
+      }
+      if (delegated) {
+        Verdict dv;
+        if (delegateResponse(dv)) {
+          cov.count("c08.runs_also_executed_in_a_pristine_process");
+          if (dv.violated && !v.violated) v = dv;
         }
       }
       runs++;
